@@ -496,7 +496,7 @@ func (p *parser) processCond(nodes []node, root *node, ctl []byte, offset int) (
 
 			t := p.targetSnapshot()
 			p.cc++
-			subNodes, offset, err = p.parse(subNodes, root, pos+len(ctl), t)
+			subNodes, offset, err = p.parse(subNodes, &node{typ: typeCond}, pos+len(ctl), t)
 			split = splitNodes(subNodes)
 
 			if len(split) > 0 {
